@@ -8,14 +8,20 @@ def _attach(pid, g):
             gens.append(g)
         PROPS[pid]["generators"] = gens
 
+# Second round (work package "gen2"): FuncsPos (Position.Top/At/hashAt/Equal), FuncsRoad (hasRoad, bitboard.FloodGroups),
+# FuncsMoveGen (MkSlides, calculateSlides, the `slides` table of init, Position.AllMoves).  Every group file imports the
+# earlier ones, so a property lists all files up to the last one it uses.
+_UPTO_EVAL = ["FuncsTak.lean", "FuncsOver.lean", "FuncsMove.lean", "FuncsSym.lean", "FuncsAI.lean", "FuncsFPA.lean", "FuncsEval.lean"]
 _GEN = {
-    "C01": (["FuncsTak.lean"], ["FNTAK"]),
-    "C02": (["FuncsTak.lean", "FuncsOver.lean"], ["FNTAK", "FNOVER"]),
+    "C01": (_UPTO_EVAL + ["FuncsPos.lean"], ["FNTAK", "FNPOS"]),
+    "C02": (_UPTO_EVAL + ["FuncsPos.lean", "FuncsRoad.lean"], ["FNTAK", "FNOVER", "FNROAD"]),
+    "C03": (_UPTO_EVAL + ["FuncsPos.lean", "FuncsRoad.lean", "FuncsMoveGen.lean"], ["FNMOVEGEN"]),
     "C05": (["FuncsTak.lean", "FuncsMove.lean", "FuncsAI.lean"], ["FNMOVE", "FNAI"]),
-    "C14": (["FuncsTak.lean", "FuncsMove.lean", "FuncsSym.lean"], ["FNMOVE", "FNSYM"]),
+    "C14": (_UPTO_EVAL + ["FuncsPos.lean", "FuncsRoad.lean", "FuncsMoveGen.lean", "FuncsSymMove.lean"], ["FNMOVE", "FNSYM", "FNXFORM"]),
+    "C06": (_UPTO_EVAL + ["FuncsPos.lean", "FuncsRoad.lean", "FuncsMoveGen.lean", "FuncsSymMove.lean", "FuncsProve.lean"], ["FNPROVE"]),
     "C15": (["FuncsTak.lean", "FuncsMove.lean", "FuncsSym.lean"], ["FNSYM"]),
     "C20": (["FuncsTak.lean", "FuncsMove.lean", "FuncsFPA.lean"], ["FNMOVE", "FNFPA"]),
-    "C08": (["FuncsTak.lean"], ["FNHASH"]),
+    "C08": (_UPTO_EVAL + ["FuncsPos.lean"], ["FNHASH", "FNPOS"]),
     "C18": (["FuncsTak.lean", "FuncsOver.lean", "FuncsEval.lean"], ["FNEVAL"]),
 }
 for _pid in list(PROPS):
